@@ -29,6 +29,10 @@ type Variant struct {
 	// serial step count; resolved to absolute steps (Sched.ChangePoints) when
 	// the run executes, so a replay file holds absolute steps only.
 	CPFrac []float64 `json:"cp_frac,omitempty"`
+	// Twin: execute over the independently loaded twin corpus, whose files were
+	// registered in the token.FileSet in a different (seeded) order - what a
+	// loader that parses files concurrently does from one process to the next.
+	Twin bool `json:"twin,omitempty"`
 }
 
 // RunConfig is everything that determines one simulated run. A replay file is
@@ -65,19 +69,20 @@ type RunResult struct {
 	Start *int `json:"start,omitempty"` // "run i is about to start" marker
 	Done  bool `json:"done,omitempty"`  // last line of a worker
 
-	Index      int              `json:"index"`
-	Config     *RunConfig       `json:"config,omitempty"`
-	Verdict    string           `json:"verdict,omitempty"` // ok | violation | skip
-	Violations []Violation      `json:"violations,omitempty"`
-	NonTrivial bool             `json:"nontrivial,omitempty"`
-	DecisionID string           `json:"decision_id,omitempty"` // hash of the run's decision lists (distinctness)
-	Digest     string           `json:"digest,omitempty"`      // digest of everything observable, for same-seed cross-process comparison
-	Stats      map[string]int64 `json:"stats,omitempty"`
-	Faults     map[string]int64 `json:"faults,omitempty"` // fault kinds that actually fired
-	Probes     map[string]int64 `json:"probes,omitempty"` // rare-condition probes
-	Sample     json.RawMessage  `json:"sample,omitempty"`
-	Notes      []string         `json:"notes,omitempty"`
-	WallMs     int64            `json:"wall_ms,omitempty"`
+	Index       int              `json:"index"`
+	Config      *RunConfig       `json:"config,omitempty"`
+	Verdict     string           `json:"verdict,omitempty"` // ok | violation | skip
+	Violations  []Violation      `json:"violations,omitempty"`
+	NonTrivial  bool             `json:"nontrivial,omitempty"`
+	DecisionID  string           `json:"decision_id,omitempty"`  // hash of the run's decision lists (distinctness)
+	Digest      string           `json:"digest,omitempty"`       // digest of everything observable, for same-seed cross-process comparison
+	DigestParts []string         `json:"digest_parts,omitempty"` // what the digest is made of (hash of printed records, hand-over hash, map hash, steps): tells which part differed
+	Stats       map[string]int64 `json:"stats,omitempty"`
+	Faults      map[string]int64 `json:"faults,omitempty"` // fault kinds that actually fired
+	Probes      map[string]int64 `json:"probes,omitempty"` // rare-condition probes
+	Sample      json.RawMessage  `json:"sample,omitempty"`
+	Notes       []string         `json:"notes,omitempty"`
+	WallMs      int64            `json:"wall_ms,omitempty"`
 
 	// process level (Done line)
 	Proc map[string]any `json:"proc,omitempty"`
